@@ -16,6 +16,16 @@ def run(ctx):
     if bdb:
         ctx.correspond(bdb, "TestVerifC07DB", "svdriver_c07", "c07db", env={"VERIF_N": 20 if quick else 700})
         ctx.correspond(bdb, "TestVerifC07DBFindings", "svdriver_c07", "c07dbregress", env={"VERIF_N": 6 if quick else 150})
+    # end-to-end: service.NewFileSystem (opaque flavour chosen from overlayutils.NeedsUserXAttr), a REAL kernel FUSE
+    # mount per layer, the xattr / whiteouts / served tree read through the kernel, and a real overlayfs over the
+    # FUSE mountpoints compared with the OCI application of the source tars
+    bsvc = ctx.go_test_binary("service", "h_svc_c07")
+    if bsvc:
+        rep = ctx.correspond(bsvc, "TestVerifC07Service", "svdriver_c07", "c07svc",
+                             env={"VERIF_N": 3 if quick else 60}, timeout=600)
+        for k, v in ((rep or {}).get("stats") or {}).items():
+            if k.startswith("overlayfs-unavailable") or k.startswith("fuse-unavailable"):
+                ctx.notes.append(f"{k} (x{v}): the end-to-end pass ran without that part")
     return ctx.finish(
         level="proof",
         rule="one case = one layer built by the real builder from a generated tar (additions, whiteouts, opaque "
@@ -30,7 +40,11 @@ def run(ctx):
              "and db/bbolt (real layer.Resolver over a scripted registry; node inputs from an independent db reader of "
              "the same blob). Excluded on the db store only: the root node's own Getattr (root attribute block read "
              "before init, db-root-attr-read-before-init under C02/C05); link counts are not part of the canonical "
-             "form on either store; stat-file error/fetched-size injection is memory-store only",
+             "form on either store; stat-file error/fetched-size injection is memory-store only. "
+             "End-to-end: generated 2-3 layer stacks served by service.NewFileSystem over real kernel FUSE mounts; oracle A "
+             "(through the kernel: opaque xattr under the flavour overlayutils.NeedsUserXAttr dictates, whiteouts 0/0 chr, "
+             "no .wh. name, served tree == translation of the tar) and oracle B (real overlayfs over the FUSE lowers == "
+             "applied tars: names, types, file bytes, symlink targets)",
         assumptions=[
             "kernel overlayfs follows the merge rules of Documentation/filesystems/overlayfs.rst as rendered by "
             "SV.Overlay.descend/ovlResolve (and, independently, by the harness' verifMerge)",
@@ -44,6 +58,12 @@ def run(ctx):
             "real entries of a layer are named by path components (non-empty, not . or ..)",
             "root filesystem equality is equality of the path -> (kind, attributes of the providing entry) maps; "
             "xattr listings of the merged view are outside the model",
+            "a layer whose ROOT carries the opaque marker: the kernel does not read the opaque xattr of a lowerdir root "
+            "(observed through a real overlay mount: lower content stays visible), whereas SV.Overlay.descend and the "
+            "harness' verifMerge honour it; overlay_equals_oci is therefore a statement about the documented rule, and "
+            "the end-to-end pass skips the overlay comparison for such stacks (counted as overlay-skipped-opaque-layer-root)",
+            "end-to-end pass: real FUSE + overlayfs of this sandbox's kernel; a whiteout that overlayfs' readdir leaks "
+            "from a lower-only directory (listed, lstat ENOENT) counts as absent",
             "db store: metadata ids of two db readers over the same blob coincide (TOC order); checked by the "
             "correspondence itself",
         ])
